@@ -15,6 +15,7 @@ from __future__ import annotations
 
 import functools
 import inspect
+import re
 import sys
 import typing
 
@@ -55,7 +56,9 @@ def forwardref(
 
     module = _resolve_module_name(ref, module)
     if module is not None and qualified:
-        name = name.replace(f"{module}.", "")
+        # Only a whole (dotted) name is a module qualifier: `shapes.` is not one
+        #   inside `Myshapes.A` or `Outer.shapes.Q`.
+        name = re.sub(rf"(?<![\w.]){re.escape(module)}\.", "", name)
 
     return ForwardRef(
         name,
